@@ -119,7 +119,7 @@ def shrink_and_report(prop, scratch, by_id, fails, mode="hist", harness_env=None
         small = h
         try:
             if len(h) < 3000:
-                small = vlib.shrink_history(scratch, h, still, max_runs=150)
+                small = vlib.shrink_history(scratch, h, still, max_runs=int(os.environ.get("JAMM_SHRINK_RUNS", "150")))
         except Exception as e:  # shrinking is best effort
             log("shrink failed", e)
         res, _ = vlib.run_hist(scratch, small, name="final", mode=mode, harness_env=harness_env, timeout=120)
